@@ -57,9 +57,9 @@ def _tla_dimcfg(dc):
 
 
 def tla_configs(cfgs):
-    return "<<" + ",\n  ".join("[rows |-> %s, cols |-> %s]" %
-                               (_tla_dimcfg(c["rows"]), _tla_dimcfg(c["cols"]))
-                               for c in cfgs) + ">>"
+    return "<<" + ",\n  ".join("[idx |-> %d, rows |-> %s, cols |-> %s]" %
+                               (i + 1, _tla_dimcfg(c["rows"]), _tla_dimcfg(c["cols"]))
+                               for i, c in enumerate(cfgs)) + ">>"
 
 
 # ---------------------------------------------------------------- JSON rendering
@@ -192,7 +192,8 @@ def insertion_configs(rows_dim, cols_dim, n, seed, allow_diff=True, max_ins=2):
         a, b, c = valid[0], valid[1], valid[-1]
         ins = [insertion("R1", "top", [a, b], id=21),
                insertion("R2", b, [a, b], [c], id=22),
-               insertion("R3", "bottom", [c], [a, b], id=23)]
+               insertion("R3", "bottom", [c], [a, b], id=23),
+               insertion("R4", a, [a], [c], id=24)]
         return dimcfg(vins=ins) if on_view else dimcfg(xins=ins)
 
     if allow_diff:
@@ -205,3 +206,48 @@ def insertion_configs(rows_dim, cols_dim, n, seed, allow_diff=True, max_ins=2):
         c = dc_for(cols_dim, force=not can(rows_dim)) if can(cols_dim) else dimcfg()
         out.append(config(r, c))
     return out
+
+
+def order_configs(rows_dim, cols_dim, n, seed, with_prune=False, sort=False):
+    """n random configurations over explicit / payload order, hide sets, insertions with
+    every kind of anchor and with / without ids (C07), optionally prune flags (C09)"""
+    import random
+    rng = random.Random(seed)
+
+    def can_ins(dim):
+        return dim is not None and dim["kind"] in ("cat", "cacat")
+
+    def dc_for(dim):
+        if dim is None:
+            return dimcfg()
+        ids = _ids_plus(dim)
+        valid = [i for p, i in enumerate(dim["ids"], 1) if p not in dim["miss"]]
+        order = None
+        if rng.random() < 0.55:
+            k = rng.choice([0, 1, 2, 3, 4, 5])
+            order = {"type": "explicit", "ids": [rng.choice(ids) for _ in range(k)]}
+        hide = [i for i in valid if rng.random() < 0.2]
+        if rng.random() < 0.1:
+            hide.append(ids[-1])
+        vins, xins = [], None
+        if can_ins(dim) and rng.random() < 0.8:
+            m = rng.choice([1, 2, 2, 3])
+            mode = rng.choice(["all", "none", "none", "mixed"])
+            ins = []
+            for k in range(m):
+                wid = {"all": True, "none": False, "mixed": rng.random() < 0.5}[mode]
+                i = random_insertion(rng, dim, k + 1, allow_diff=True, with_id=wid)
+                ins.append(i)
+            r = rng.random()
+            if r < 0.5:
+                vins = ins
+            elif r < 0.85:
+                xins = ins
+            else:
+                # the analysis re-states (a permutation / subset of) the view insertions
+                vins = ins
+                xins = rng.sample(ins, rng.randint(1, len(ins)))
+        prune = with_prune and rng.random() < 0.6
+        return dimcfg(vins=vins, xins=xins, hide=hide, prune=prune, order=order)
+
+    return [config(dc_for(rows_dim), dc_for(cols_dim)) for _ in range(n)]
